@@ -11,7 +11,7 @@
 From Coq Require Import String Ascii.
 From Coq Require Import List NArith ZArith Bool.
 Import ListNotations.
-From TarpcV Require Import Base Schema Wire Framing.
+From TarpcV Require Import Base Schema Wire JsonText Framing.
 Local Open Scope N_scope.
 
 Inductive tcodec := TBincode | TJson | TBounded (cap : nat) | TUnbounded.
@@ -23,7 +23,8 @@ Record cfg := { codec : tcodec; chunks : list nat; cut : nat }.
 
 Inductive op :=
 | Send (m : wmsg)
-| SendRaw (payload : bytes) (tree : option jv)   (* a hand-written frame payload; for Json its value tree *)
+| SendRaw (payload : bytes) (tree : option jv)   (* a hand-written frame payload; for Json: the value tree
+                                                   the harness's own parser reads from it (cross-check) *)
 | Recv
 | Close                                          (* the writing end is DROPPED *)
 | CloseSink.                                     (* the writing end is closed (Sink::poll_close) and kept *)
@@ -96,23 +97,18 @@ Definition deliver_cm (m : client_message) : client_message :=
   | CCancel _ _ => m
   end.
 
-(* what the reading end makes of one frame payload.  For Json the model has no text parser:
-   it decodes the value tree of the frame at the same position of the stream, provided the
-   payload bytes are the ones written there. *)
+(* what the reading end makes of one frame payload: the bytes, and nothing but the bytes.
+   Bincode: Wire.bin_decode; Json: the text parser of JsonText.v, then the tree decoder.
+   (`written` is not consulted any more; it is kept so that the machine's state still records
+   what was put on the stream.) *)
 Definition decode_payload (c : tcodec) (c2s : bool) (p : bytes) (written : option (bytes * option jv)) : obs :=
   match c with
   | TBincode =>
     if c2s then match cm_of_bincode p with Some m => ORecv (MC (deliver_cm m)) | None => ORecvErr end
     else match resp_of_bincode p with Some r => ORecv (MR r) | None => ORecvErr end
   | TJson =>
-    match written with
-    | Some (q, Some t) =>
-      if bytes_eqb p q then
-        if c2s then match cm_of_json t with Some m => ORecv (MC (deliver_cm m)) | None => ORecvErr end
-        else match resp_of_json t with Some r => ORecv (MR r) | None => ORecvErr end
-      else ORecvErr
-    | _ => ORecvErr
-    end
+    if c2s then match cm_of_json_text p with Some m => ORecv (MC (deliver_cm m)) | None => ORecvErr end
+    else match resp_of_json_text p with Some r => ORecv (MR r) | None => ORecvErr end
   | _ => ORecvErr
   end.
 
@@ -233,14 +229,10 @@ Definition frame_len (l : list obs) : option nat :=
 Definition expect_of (c : tcodec) (c2s : bool) (o : op) : option obs :=
   match o with
   | Send m => Some (ORecv (arrives_as m))
-  | SendRaw p t =>
-    Some (match c with
-          | TJson => match t with
-                     | Some t => if c2s then match cm_of_json t with Some m => ORecv (MC (deliver_cm m)) | None => ORecvErr end
-                                 else match resp_of_json t with Some r => ORecv (MR r) | None => ORecvErr end
-                     | None => ORecvErr end
-          | _ => decode_payload c c2s p None
-          end)
+  (* a hand-written payload must arrive as what its bytes mean (or as an Err item if they mean
+     nothing); the tree `t` printed by the harness's own parser is only cross-checked against
+     JsonText.json_parse in Checks/C15check.v *)
+  | SendRaw p t => Some (decode_payload c c2s p None)
   | _ => None
   end.
 
